@@ -417,6 +417,7 @@ def build_corpus(rng, thorough):
         for fl in G.ROUTER_FLAVOURS:
             subjects.append(g.router(fl))
     subjects.append(g.router("router_plain"))
+    subjects.append(g.router("router_failfirst"))
     for sid, s in enumerate(subjects):
         s["sid"] = sid
         recs = [rec for _, rec in s["subs"]]
@@ -512,8 +513,129 @@ def shrink(session, still_differs, budget_s=30):
     return dict(session, items=items)
 
 
+PROBE_PY = os.path.join(VERIF, "harness", "c11_probe.py")
+
+
+def run_probe(vseed, hashseed, names=()):
+    env = dict(os.environ, PYTHONPATH=REPO, PYTHONHASHSEED=str(hashseed), PYTHONDONTWRITEBYTECODE="1")
+    try:
+        p = subprocess.run([PY, PROBE_PY, str(vseed)] + list(names), capture_output=True, text=True, env=env, timeout=240)
+    except subprocess.TimeoutExpired:
+        return {"error": "timeout"}
+    if p.returncode != 0:
+        return {"error": "probe exit %d: %s" % (p.returncode, p.stderr[-1200:])}
+    try:
+        return json.loads(p.stdout)
+    except ValueError:
+        return {"error": "unreadable probe output"}
+
+
+def hashseed_probe(ck, seeds):
+    """Directed programs (harness/c11_probe.py), each child interpreter under another PYTHONHASHSEED; byte identity."""
+    vseed = ck.seed
+    with concurrent.futures.ThreadPoolExecutor(max_workers=NPROC) as ex:
+        outs = list(ex.map(lambda hs: run_probe(vseed, hs), seeds))
+    base = outs[0]
+    found = []
+    if "error" in base:
+        ck.violation("hash-seed probe could not run: " + base["error"], {"kind": "probe-error", "error": base["error"]}, no_failing_input=True)
+        return found, 0
+    n = 0
+    for hs, o in zip(seeds[1:], outs[1:]):
+        if "error" in o:
+            ck.violation("hash-seed probe could not run under PYTHONHASHSEED=%s: %s" % (hs, o["error"]), {"kind": "probe-error", "error": o["error"]}, no_failing_input=True)
+            continue
+        for name in base:
+            n += 1
+            ck.count(("probe", name, hs))
+            if o.get(name) != base[name] and not any(f["program"] == name for f in found):
+                found.append({"kind": "hashseed-differs", "program": name, "variant_seed": vseed, "hashseed_a": seeds[0], "hashseed_b": hs,
+                              "teal_a": base[name], "teal_b": o.get(name)})
+    return found, n
+
+
+def _prefix_facts(prefix, kind, ident):
+    """What the class predicates of the known findings need to know about a hypothetical further compile of an object."""
+    methods, subs, earlier, earlier_fp = [], [], 0, 0
+    for st in prefix:
+        if st["k"] == "router_method" and kind == "r" and st["r"] == ident:
+            methods.append((st["h"], st["sub"]))
+        if st["k"] in ("defsub", "router_method"):
+            subs.append(st["sub"])
+        if (st["k"] == "router_compile" and kind == "r" and st["r"] == ident) or (st["k"] == "compile" and kind == "p" and st["p"] == ident):
+            earlier += 1
+            if G.uses_fp(st["version"], st.get("opt")):
+                earlier_fp += 1
+    return methods, subs, earlier, earlier_fp
+
+
+def search_witness(breaks, limit=4):
+    """The state machine no longer describes the implementation at some step.  Look for a program that shows it: take the
+    object (router / program) of the diverging step, compile it once more at a few configurations (a) at the end of the
+    session prefix that led there and (b) after the same definitions with no compilation at all, each in a fresh interpreter."""
+    jobs, meta = [], []
+    cfgs = [{"version": 7}, {"version": 6}, {"version": 8, "opt": {"frame_pointers": False}}, {"version": 8}]
+    for br in breaks[:limit]:
+        if "spec" not in br or br.get("step") is None:
+            continue
+        steps = br["spec"]["steps"]
+        i = br["step"]
+        tgt = None
+        for j in range(i, max(-1, i - 4), -1):
+            st = steps[j]
+            if st["k"] in ("router_compile", "router_method", "router_new"):
+                tgt = ("r", st["r"])
+                break
+            if st["k"] in ("compile", "build") and "p" in st:
+                tgt = ("p", st["p"])
+                break
+        if tgt is None:
+            continue
+        prefix = [{k: v for k, v in st.items() if k not in ("key", "facts")} for st in steps[:i + 1]]
+        defs = [st for st in prefix if st["k"] in ("defsub", "router_new", "router_method", "build")]
+        methods, subs, earlier, earlier_fp = _prefix_facts(prefix, tgt[0], tgt[1])
+        for cfg in cfgs:
+            fp = G.uses_fp(cfg["version"], cfg.get("opt"))
+            # stay out of the classes of the known findings
+            if tgt[0] == "r" and not fp and earlier and G.router_interleaved(methods, ["?"] if any(G.body_calls(s["body"]) or G.sub_has_nested(s) for _, s in methods) else []):
+                continue
+            if tgt[0] == "r" and fp and earlier_fp and any(G.sub_has_nested(s) for _, s in methods):
+                continue
+            if tgt[0] == "p" and not fp and earlier_fp and G.has_storeinto_in_sub(subs):
+                continue
+            last = dict({"k": "router_compile", "r": tgt[1]} if tgt[0] == "r" else {"k": "compile", "p": tgt[1]}, **cfg)
+            a = {"recover": br["spec"].get("recover", True), "steps": prefix + [last]}
+            b = {"recover": True, "steps": defs + [last]}
+            jobs += [(a, br.get("hashseed", 0)), (b, 0)]
+            meta.append((br, tgt, cfg, a, b))
+    res = run_many(jobs)
+    out = []
+    for k, (br, tgt, cfg, a, b) in enumerate(meta):
+        ra, rb = res[2 * k], res[2 * k + 1]
+        if "error" in ra or "error" in rb:
+            continue
+        va, vb = value_of(ra["steps"][-1]), value_of(rb["steps"][-1])
+        if va != vb and vb[0] == "ok":
+            out.append({"kind": "teal-differs", "found_by": "witness search after the state machine diverged at step %d (%s)" % (br["step"], br.get("kind")),
+                        "target": list(tgt), "config": cfg, "spec": a, "hashseed": br.get("hashseed", 0), "step": len(a["steps"]) - 1,
+                        "reference_spec": b, "reference_hashseed": 0, "reference_step": len(b["steps"]) - 1,
+                        "expected": vb, "observed": va, "history": [(st["k"], st.get("version"), st.get("opt")) for st in a["steps"][-12:]]})
+    return out, len(meta)
+
+
 def replay(path):
     rp = json.load(open(path))
+    if rp.get("kind") == "hashseed-differs":
+        a = run_probe(rp["variant_seed"], rp["hashseed_a"], [rp["program"]])
+        b = run_probe(rp["variant_seed"], rp["hashseed_b"], [rp["program"]])
+        va, vb = a.get(rp["program"]), b.get(rp["program"])
+        print("PYTHONHASHSEED=%s:" % rp["hashseed_a"], (va or ["?", ""])[0], ((va or ["", ""])[1] or "")[:200].replace("\n", " | "))
+        print("PYTHONHASHSEED=%s:" % rp["hashseed_b"], (vb or ["?", ""])[0], ((vb or ["", ""])[1] or "")[:200].replace("\n", " | "))
+        if va != vb:
+            print("VIOLATION property=C11 replay=%s" % path)
+            return 1
+        print("no difference any more")
+        return 0
     if rp.get("kind") != "teal-differs":
         print("replay: kind %r has no executable replay; see the file" % rp.get("kind"))
         return 0
@@ -576,7 +698,15 @@ def main(argv):
     id_mism = check_id_usage(ck, model, thorough)
     ck.coverage["id_usage_mismatches"] = len(id_mism)
 
-    # ---------------- correspondence 2 + implementation-side check: sessions ----------------
+    # ---------------- implementation side (a): directed programs under several hash seeds ----------------
+    probe_seeds = [0, 1, 2, 3, 7, rng.randrange(8, 2**32 - 1)] + ([5, 11, 42, rng.randrange(8, 2**32 - 1), rng.randrange(8, 2**32 - 1)] if thorough else [])
+    probe_found, probe_n = hashseed_probe(ck, probe_seeds)
+    ck.coverage["hashseed_probe"] = {"hash_seeds": probe_seeds, "comparisons": probe_n, "differences": len(probe_found)}
+    for f in probe_found[:3]:
+        ck.violation("program %s (harness/c11_probe.py, variant %d) compiles to different TEAL under PYTHONHASHSEED=%s and %s" % (
+            f["program"], f["variant_seed"], f["hashseed_a"], f["hashseed_b"]), f)
+
+    # ---------------- correspondence 2 + implementation-side check (b): sessions ----------------
     subjects, _ = build_corpus(rng, thorough)
     by_sid = {s["sid"]: s for s in subjects}
     sessions = fresh_sessions(subjects)
@@ -732,7 +862,14 @@ def main(argv):
              "reference_spec": spec_of(rs), "reference_hashseed": rs["hashseed"], "reference_step": d["ref_step"],
              "expected": want, "observed": got, "items": [it["what"] for it in small["items"]]})
     ck.coverage["disagreements_checked"] = len(diffs) + len(corr_breaks) + len(id_mism)
+    witnesses = []
     if corr_breaks and not diffs:
+        witnesses, n_w = search_witness(corr_breaks)
+        ck.coverage["witness_search"] = {"candidates": n_w, "found": len(witnesses)}
+        for w in witnesses[:2]:
+            ck.violation("%s %s compiled at %s after the session prefix differs from the same definitions compiled in a fresh process (%s)" % (
+                "router" if w["target"][0] == "r" else "program", w["target"][1], json.dumps(w["config"]), w["found_by"]), w)
+    if corr_breaks and not diffs and not witnesses:
         b0 = corr_breaks[0]
         ck.violation("correspondence broken: observed counters/marker differ from the state machine Hist/Session.v at step %s (%s) of a %s session "
                      "(theorems C11_history_only_shifts / C11_marker_restored no longer transfer); no TEAL difference found in %d observations" % (
